@@ -3,6 +3,7 @@ Second part of the model `IrVerif.Clone` (Model/Clone.lean): the walker's verdic
 (`modelVerdict`), added in deepening round 3b.  Only core Lean is imported (linked into `irdriver`).
 -/
 import IrVerif.Model.Clone
+import IrVerif.Model.Sort
 namespace IrVerif.Clone
 
 def wModelCell (w : World) (i : Nat) : WRes ModelS :=
@@ -19,5 +20,483 @@ def modelVerdict (fuel : Nat) (w : World) (m : Nat) : WRes Unit :=
   (cloneVerdict fuel false w ms.graph).bind fun _ =>
   (wAll (fun f => (funcVerdict fuel w f).bind fun _ => .ok ()) ms.funcs).bind fun _ =>
   wDict w ms.props
+
+
+/-! ### `functionalize` of ANY pass: pipelines (`Sequential`, `PassManager`) of stages that edit the
+model they are handed and / or return a new `ir.Model` built around its objects
+(`passes/_pass_infra.py`) -/
+
+/-- the two flags a pass DECLARES (`PassBase.in_place`, `PassBase.changes_input`) -/
+structure Decl where
+  inPlace : Bool
+  changesInput : Bool
+  deriving DecidableEq, Repr
+
+/-- what a pass does with the model it is handed: a history of editing calls (which may depend on the
+    model and on the heap it finds); `rewrap` then returns a NEW model object built around the
+    objects of its input, `ir.Model(model.graph, functions=list(model.functions.values()),
+    metadata_props=dict(model.metadata_props), ...)` with header fields `header` -/
+inductive Stage where
+  | inPlace (edits : Nat → World → List Edit2)
+  | rewrap (edits : Nat → World → List Edit2) (header : Nat)
+
+def Stage.edits : Stage → Nat → World → List Edit2
+  | .inPlace e => e
+  | .rewrap e _ => e
+
+/-- `ir.Model(model.graph, ..., functions=list(model.functions.values()),
+    metadata_props=dict(model.metadata_props))`: graph, functions and device configurations are the
+    SAME objects; `metadata_props` is a new dict with the same entries, `meta` a new empty store -/
+def rewrapModel (header : Nat) (m : Nat) : M Nat := do
+  let ms ← readModel m
+  let props ← copyProps ms.props
+  let mstore ← alloc (.dict {})
+  alloc (.model { graph := ms.graph, funcs := ms.funcs, header := header, dev := ms.dev, props := props,
+                  mstore := mstore })
+
+/-- the checks of `PassBase.__call__` after `call` returned: the declared `in_place` must agree with
+    the identity of the returned model (`PassError` otherwise; the heap keeps what the pass did) -/
+def callChecked (d : Decl) (m : Nat) : Except Err Nat × World → Except Err Nat × World
+  | (.ok m1, w1) =>
+    if d.inPlace && m1 != m then (.error (.raised "declared in-place but returned another model object"), w1)
+    else if !d.inPlace && m1 == m then (.error (.raised "declared not in-place but returned the input model object"), w1)
+    else (.ok m1, w1)
+  | r => r
+
+/-- `pass_(model)` for one stage -/
+def runStage (d : Decl) (st : Stage) (m : Nat) (w : World) : Except Err Nat × World :=
+  callChecked d m (match st with
+    | .inPlace edits => (.ok m, (runHistory2 (edits m w) w).2)
+    | .rewrap edits header => run (rewrapModel header m) (runHistory2 (edits m w) w).2)
+
+/-- `Sequential.call`: every pass on the model the previous one returned -/
+def runStages : List (Decl × Stage) → Nat → World → Except Err Nat × World
+  | [], m, w => (.ok m, w)
+  | p :: rest, m, w =>
+    match runStage p.1 p.2 m w with
+    | (.ok m1, w1) => runStages rest m1 w1
+    | (.error e, w1) => (.error e, w1)
+
+/-- `Sequential.__init__`: `in_place = all(p.in_place for p in passes)`,
+    `changes_input = passes[0].changes_input or passes[0].in_place` — a DERIVED DECLARATION: a
+    pipeline that starts with a functional pass and goes on with in-place passes declares itself
+    functional -/
+def seqDecl (ps : List (Decl × Stage)) : Decl :=
+  { inPlace := ps.all (·.1.inPlace),
+    changesInput := match ps with
+      | [] => false
+      | p :: _ => p.1.changesInput || p.1.inPlace }
+
+/-- `Sequential(*passes)(model)` (`steps = 1`) / `PassManager(passes, steps, early_stop=False)(model)`:
+    `PassBase.__call__` around `call`, which runs the passes `steps` times -/
+def runPipeline (ps : List (Decl × Stage)) (steps : Nat) (m : Nat) (w : World) : Except Err Nat × World :=
+  callChecked (seqDecl ps) m (runStages (List.replicate steps ps).flatten m w)
+
+/-- `functionalize(pipeline)(model)`.  `_FunctionalPassWrapper.call` is
+    `return self._inner_pass(model.clone())`: the model is ALWAYS cloned, whatever the inner pass
+    declares about itself; the wrapper is a `FunctionalPass` (declared not in place). -/
+def functionalizeAny (fuel : Nat) (ps : List (Decl × Stage)) (steps : Nat) (m : Nat) (w : World) :
+    Except Err Nat × World :=
+  match run (modelClone fuel m) w with
+  | (.ok m', w1) => callChecked ⟨false, false⟩ m (runPipeline ps steps m' w1)
+  | (.error e, w1) => (.error e, w1)
+
+
+/-! ### the third editing alphabet (round 3b): `Graph.sort` on graphs with subgraphs, slice assignment
+on `graph.inputs` / `graph.outputs`, `initializers.pop / clear / update`, `Graph.extend`,
+`Graph.remove(safe=True)`, `convenience.replace_all_uses_with` (several pairs),
+`convenience.rename_values` (`_core.py`, `_graph_containers.py`, `_linked_list.py`,
+`_convenience/__init__.py`) -/
+
+/-- the producer of a value, as `Graph.sort` reads it (`input_value.producer()`) -/
+def producerOf (w : World) : Option Nat → Option Nat
+  | none => none
+  | some v => match w[v]? with
+    | some (.val vs) => vs.producer
+    | _ => none
+
+/-- the graphs held by the attributes of a node, in `node.attributes.values()` order (a `GRAPHS`
+    attribute contributes its graphs in order; reference attributes and plain ones none) -/
+def attrGraphs (w : World) : List (String × Nat) → Option (List Nat)
+  | [] => some []
+  | ka :: rest =>
+    match w[ka.2]?, attrGraphs w rest with
+    | some (.attr a), some r =>
+      (match a.v with
+        | .graph g => some (g :: r)
+        | .graphs gs => some (gs ++ r)
+        | _ => some r)
+    | _, _ => none
+
+/-- the nodes of a graph as `Sort.MNode`s; `rec` builds a nested graph -/
+def treeNodes (w : World) (rec : Nat → Option Sort.MGraph) : List Nat → Option (List Sort.MNode)
+  | [] => some []
+  | n :: ns =>
+    match w[n]? with
+    | some (.node x) =>
+      match (attrGraphs w x.attrs).bind (fun gs => gs.mapM rec), treeNodes w rec ns with
+      | some subs, some rest => some (Sort.MNode.mk n (x.inputs.map (producerOf w)) subs :: rest)
+      | _, _ => none
+    | _ => none
+
+/-- the tree `Graph.sort` walks (`RecursiveGraphIterator`), in the vocabulary of property C12's model
+    (Model/Sort.lean); `none`: a pointer of the wrong kind, or nesting deeper than the fuel -/
+def treeOf (w : World) : Nat → Nat → Option Sort.MGraph
+  | 0, _ => none
+  | f + 1, g =>
+    match w[g]? with
+    | some (.graph gs) => (treeNodes w (treeOf w f) gs.nodes).map fun ns => (g, ns)
+    | _ => none
+
+/-- the conditions under which the model follows `graph.extend(reversed(sorted_nodes))` for one graph
+    of the nest (see `sortOrder`): a `Graph` whose nodes say they belong to it, no node listed twice,
+    every node re-addable without the name authority -/
+def sortGraphOk (w : World) (g : Nat) : Except Err Unit :=
+  match w[g]? with
+  | some (.graph gs) =>
+    if gs.view then .error (.unsupported "view")
+    else if !(gs.nodes.all fun n => match w[n]? with
+        | some (.node ns) => ns.graph == some g
+        | _ => false) then .error (.unsupported "inconsistent node.graph")
+    else if !(gs.nodes.eraseDups.length == gs.nodes.length) then .error (.unsupported "duplicate node")
+    else gs.nodes.foldl (fun (r : Except Err Unit) n =>
+        match r with
+        | .ok () => nodeAddable w g n
+        | e => e) (.ok ())
+  | _ => .error (.unsupported "not a graph")
+
+/-- write the new node order of one graph -/
+def setNodeOrder (p : Nat × List Nat) : M Unit := do
+  let gs ← readGraph p.1
+  setCell p.1 (.graph { gs with nodes := p.2 })
+
+/-- `_maybe_unset_graph` for the removed values of a slice, in order, against the reference counter
+    (`data`: what the list still holds): a value that is still listed only loses one reference -/
+def unsetSeq (g : Nat) (clear : ValueS → ValueS) : List Nat → List Nat → M Unit
+  | _, [] => pure ()
+  | data, v :: rest => do
+    (if (data.erase v).contains v then assertOwner g v else unsetOwner g clear v)
+    unsetSeq g clear (data.erase v) rest
+
+/-- `name = value.name or name`, then `name and key != name` -/
+def itemNameBad (vs : ValueS) (pending : Option String) (key : String) : Bool :=
+  match (if vs.name = none || vs.name = some "" then pending else vs.name) with
+  | some n => n != "" && n != key
+  | none => false
+
+/-- `GraphInitializers._check_item(key, value, name)` (`name`: what the same `update` call is about to
+    call the value) -/
+def checkItem (g : Nat) (key : String) (v : Nat) (pending : Option String) : M Unit := do
+  let vs ← readVal v
+  if key = "" then raise "empty key"
+  else if itemNameBad vs pending key then raise "key does not match the name of the value"
+  else if vs.producer.isSome then raise "produced by a node"
+  else if vs.graph.isSome && vs.graph != some g then raise "value owned by a different graph"
+  else pure ()
+
+/-- `pending_names.setdefault(id(value), key)` for a value without a name -/
+def pendAdd' (pend : List (Nat × String)) (vs : ValueS) (v : Nat) (key : String) : List (Nat × String) :=
+  if (vs.name = none || vs.name = some "") && (pend.lookup v).isNone then (v, key) :: pend else pend
+
+/-- the checking pass of `GraphInitializers.update`: every entry, with the names the call is going to
+    give (`pending_names`, first key wins) -/
+def updChecks (g : Nat) : List (Nat × String) → List (String × Nat) → M Unit
+  | _, [] => pure ()
+  | pend, kv :: rest => do
+    checkItem g kv.1 kv.2 (pend.lookup kv.2)
+    let vs ← readVal kv.2
+    updChecks g (pendAdd' pend vs kv.2 kv.1) rest
+
+/-- `MutableMapping.clear` on the initializers: `popitem()` (first key) until empty -/
+def clearInitsLoop (g : Nat) : Nat → M Unit
+  | 0 => pure ()
+  | f + 1 => do
+    let gs ← readGraph g
+    match gs.inits with
+    | [] => pure ()
+    | e :: _ => do
+      applyEdit2 (.delInit g e.1)
+      clearInitsLoop g f
+
+/-- `_check_node_safe_to_remove` preceded by the membership test of `Graph.remove` -/
+def checkRemovable (g : Nat) (toRemove outputs : List Nat) (n : Nat) : M Unit := do
+  let x ← readNode n
+  if x.graph != some g then raise "node does not belong to this graph"
+  else forM' (fun o => do
+      let os ← readVal o
+      if outputs.contains o then raise "node output is an output of the graph"
+      else if os.uses.any (fun u => !toRemove.contains u.1) then raise "output still used by nodes that stay"
+      else pure ()) x.outputs
+
+/-- detach, un-own and unlink one node (`Graph.remove(.., safe=True)`, second loop) -/
+def removeOneSafe (g n : Nat) : M Unit := do
+  let x ← readNode n
+  forM' (fun i => applyEdit0 (.replaceInput n i none)) (List.range x.inputs.length)
+  let x ← readNode n
+  setCell n (.node { x with graph := none })
+  let gs ← readGraph g
+  setCell g (.graph { gs with nodes := gs.nodes.filter (· != n) })
+
+/-- ownership as `convenience.replace_all_uses_with` simulates it: (is a graph output, owning graph) -/
+def ownershipOf (sim : List (Nat × (Bool × Option Nat))) (v : Nat) : M (Bool × Option Nat) :=
+  match sim.lookup v with
+  | some x => pure x
+  | none => do
+    let vs ← readVal v
+    pure (vs.isOut, vs.graph)
+
+/-- the checking pass of `convenience.replace_all_uses_with` (after fix c936126): every pair is
+    validated, simulating the ownership effect of the earlier pairs, before the first is applied -/
+def rauwChecks (outs : Bool) : List (Nat × (Bool × Option Nat)) → List (Nat × Nat) → M Unit
+  | _, [] => pure ()
+  | sim, p :: rest => do
+    let o ← ownershipOf sim p.1
+    if !o.1 then rauwChecks outs sim rest
+    else if !outs then raise "value is a graph output"
+    else do
+      let r ← ownershipOf sim p.2
+      if r.2.isSome && r.2 != o.2 then raise "value owned by a different graph"
+      else if p.2 != p.1 then do
+        let vs ← readVal p.1
+        let still := vs.isIn || vs.isInit
+        rauwChecks outs ((p.1, (false, if still then o.2 else none)) :: (p.2, (true, o.2)) :: sim) rest
+      else rauwChecks outs sim rest
+
+/-- `rename_values`, step 1: one target per value (a repeated pair is dropped, a conflicting one raises) -/
+def renameDedup : List (Nat × String) → List (Nat × String) → Except Err (List (Nat × String))
+  | acc, [] => .ok acc.reverse
+  | acc, p :: rest =>
+    match acc.lookup p.1 with
+    | some nm => if nm != p.2 then .error (.raised "conflicting target names") else renameDedup acc rest
+    | none => renameDedup (p :: acc) rest
+
+/-- the (value, target) pairs of the initializers, grouped by owning graph in first-seen order -/
+def groupInits : List (Nat × List (Nat × String)) → List (Nat × String) → M (List (Nat × List (Nat × String)))
+  | acc, [] => pure acc
+  | acc, p :: rest => do
+    let vs ← readVal p.1
+    if !vs.isInit then groupInits acc rest
+    else match vs.graph with
+      | none => unsupported "initializer without a graph (assert)"
+      | some g =>
+        if acc.any (·.1 == g) then
+          groupInits (acc.map fun e => if e.1 == g then (g, e.2 ++ [p]) else e) rest
+        else groupInits (acc ++ [(g, [p])]) rest
+
+/-- another value of the rename set already targets the name -/
+def seenClash (seen : List (String × Nat)) (p : Nat × String) : Bool :=
+  match seen.lookup p.2 with
+  | some x => x != p.1
+  | none => false
+
+/-- the per-graph checks of `rename_values` (`seen`: targets met so far in this graph) -/
+def renameGroupChecks (g : Nat) (group : List (Nat × String)) : List (String × Nat) → List (Nat × String) → M Unit
+  | _, [] => pure ()
+  | seen, p :: rest => do
+    if p.2 = "" then raise "empty initializer name"
+    else if seenClash seen p then raise "two initializers of the rename set target the same name"
+    else do
+      let gs ← readGraph g
+      match gs.inits.lookup p.2 with
+      | some ex =>
+        if ex != p.1 && !(group.any (·.1 == ex)) then raise "an initializer with that name already exists"
+        else renameGroupChecks g group ((p.2, p.1) :: seen) rest
+      | none => renameGroupChecks g group ((p.2, p.1) :: seen) rest
+
+/-- `tensor.name = name` for the backing tensor of a value whose name changes -/
+def renameBacking (p : Nat × String) : M Unit := do
+  let vs ← readVal p.1
+  if vs.name != some p.2 then renameTensor vs.const (some p.2) else pure ()
+
+/-- `graph.initializers.pop(value.name)` -/
+def popByName (g : Nat) (v : Nat) : M Unit := do
+  let vs ← readVal v
+  match vs.name with
+  | none => unsupported "initializer without a name (assert)"
+  | some nm => applyEdit2 (.delInit g nm)
+
+/-- `graph.initializers.add(value)`: `self[value.name] = value` -/
+def addByName (g : Nat) (v : Nat) : M Unit := do
+  let vs ← readVal v
+  match vs.name with
+  | none => raise "key must be a string"
+  | some nm => setInitCore g nm v
+
+/-- `graph.remove(nodes, safe=True)` -/
+def removeSafeM (g : Nat) (ns : List Nat) : M Unit := do
+  let gs ← readGraph g
+  if gs.view then unsupported "view"
+  else do
+    forM' (checkRemovable g ns.eraseDups gs.outputs) ns.eraseDups
+    forM' (removeOneSafe g) ns.eraseDups
+
+/-- `replace_nodes_and_values`, first loop: the new value takes over the type OBJECT, the shape OBJECT
+    and the constant tensor of the old one (when the old one has them), then its name (through the
+    `Value.name` setter) -/
+def copyInfo (p : Nat × Nat) : M Unit := do
+  let ov ← readVal p.1
+  let nv ← readVal p.2
+  setCell p.2 (.val { nv with type := if ov.type.isSome then ov.type else nv.type,
+                              shape := if ov.shape.isSome then ov.shape else nv.shape,
+                              const := if ov.const.isSome then ov.const else nv.const })
+  applyEdit0 (.setName p.2 (if ov.name.isSome then ov.name else nv.name))
+
+/-- `convenience.replace_nodes_and_values(g, n, [n], [n'], n.outputs, n'.outputs)` for a node `n'` that
+    was just built (`mkNodeFor`): info copies, `replace_all_uses_with(.., replace_graph_outputs=True)`,
+    `g.insert_after(n, [n'])`, `g.remove([n], safe=True)` -/
+def replaceWith (g n n' : Nat) (olds news : List Nat) : M Unit := do
+  forM' copyInfo (olds.zip news)
+  if olds.length != news.length then raise "the number of values and replacements must match"
+  else do
+    rauwChecks true [] (olds.zip news)
+    forM' (fun p => applyEdit2 (.replaceAllUses p.1 p.2 true)) (olds.zip news)
+    insertNode true g n n'
+    removeSafeM g [n]
+
+inductive Edit3 where
+  /-- an editing call of the second alphabet -/
+  | base2 (e : Edit2)
+  /-- `graph.sort()` on a graph whose nodes hold subgraphs; `nest`: the graphs nested in it at any
+      depth, in the order of `RecursiveGraphIterator` (they are re-linked too) -/
+  | sortDeep (g : Nat) (nest : List Nat)
+  /-- `graph.inputs[a:b] = vs` (`_GraphIO.__setitem__`, plain slice, `0 ≤ a ≤ b ≤ len`) -/
+  | setInputsSlice (g a b : Nat) (vs : List Nat)
+  /-- `graph.outputs[a:b] = vs` -/
+  | setOutputsSlice (g a b : Nat) (vs : List Nat)
+  /-- `graph.initializers.pop(key)` -/
+  | popInit (g : Nat) (key : String)
+  /-- `graph.initializers.clear()` -/
+  | clearInits (g : Nat)
+  /-- `graph.initializers.update([(k, v), ...])` -/
+  | updateInits (g : Nat) (items : List (String × Nat))
+  /-- `graph.extend([n, ...])` with existing nodes -/
+  | extendNodes (g : Nat) (ns : List Nat)
+  /-- `graph.remove([n, ...], safe=True)` -/
+  | removeSafe (g : Nat) (ns : List Nat)
+  /-- `convenience.replace_all_uses_with(values, replacements, replace_graph_outputs=outs)` -/
+  | rauwMulti (pairs : List (Nat × Nat)) (outs : Bool)
+  /-- `convenience.rename_values(values, names)` -/
+  | renameValues (pairs : List (Nat × String))
+  /-- `n' = Node("", op, inputs, name=name, num_outputs=len(outNames))`, name the outputs, then
+      `convenience.replace_nodes_and_values(g, n, [n], [n'], n.outputs, n'.outputs)` -/
+  | replaceNode (g n : Nat) (name op : String) (inputs : List (Option Nat)) (outNames : List String)
+
+def Edit3.args : Edit3 → List Nat
+  | .base2 e => e.args
+  | .sortDeep g nest => g :: nest
+  | .setInputsSlice g _ _ vs => g :: vs
+  | .setOutputsSlice g _ _ vs => g :: vs
+  | .popInit g _ => [g]
+  | .clearInits g => [g]
+  | .updateInits g items => g :: items.map (·.2)
+  | .extendNodes g ns => g :: ns
+  | .removeSafe g ns => g :: ns
+  | .rauwMulti pairs _ => pairs.flatMap fun p => [p.1, p.2]
+  | .renameValues pairs => pairs.map (·.1)
+  | .replaceNode g n _ _ inputs _ => g :: n :: inputs.filterMap id
+
+/-- `graph.inputs[a:b] = vs` / `graph.outputs[a:b] = vs` (`_GraphIO.__setitem__` with a slice): all
+    checks first, then the removed values are released, the new ones taken, the list spliced.
+    `check` / `clear` / `mark` / `get` / `put` say which of the two lists it is. -/
+def setSliceG (check : Nat → M Unit) (clear mark : ValueS → ValueS) (get : GraphS → List Nat)
+    (put : GraphS → List Nat → GraphS) (g a b : Nat) (vs : List Nat) : M Unit := do
+  let gs ← readGraph g
+  if gs.view then unsupported "view"
+  else if !(a ≤ b && b ≤ (get gs).length) then unsupported "slice out of the modelled range"
+  else do
+    forM' check vs
+    unsetSeq g clear (get gs) (((get gs).drop a).take (b - a))
+    forM' (fun v => do
+      check v
+      setValueOwner g mark v) vs
+    let gs2 ← readGraph g
+    setCell g (.graph (put gs2 ((get gs).take a ++ vs ++ (get gs).drop b)))
+
+/-- the checks and the re-linking of `graph.sort()` once the tree is known -/
+def sortDeepWith (w : World) (g : Nat) (nest : List Nat) (t : Sort.MGraph) : M Unit :=
+  if (Sort.allGraphs t).map (·.1) != g :: nest then unsupported "sort: the nest is not the expected one"
+  else match Sort.sortModel t with
+    | none => raise "Graph contains a cycle"
+    | some orders => do
+      forM' (fun gi => liftE (sortGraphOk w gi)) (g :: nest)
+      forM' setNodeOrder orders
+
+def applyEdit3 : Edit3 → M Unit
+  | .base2 e => applyEdit2 e
+  | .sortDeep g nest => do
+    let w ← getWorld
+    match treeOf w 32 g with
+    | none => unsupported "sort: not a tree of graphs within the depth bound"
+    | some t => sortDeepWith w g nest t
+  | .setInputsSlice g a b vs =>
+    setSliceG (checkInput g) (fun x => { x with isIn := false }) (fun x => { x with isIn := true })
+      (fun gs => gs.inputs) (fun gs l => { gs with inputs := l }) g a b vs
+  | .setOutputsSlice g a b vs =>
+    setSliceG (checkOwned g) (fun x => { x with isOut := false }) (fun x => { x with isOut := true })
+      (fun gs => gs.outputs) (fun gs l => { gs with outputs := l }) g a b vs
+  | .popInit g key => applyEdit2 (.delInit g key)
+  | .clearInits g => do
+    let gs ← readGraph g
+    if gs.view then unsupported "view" else clearInitsLoop g gs.inits.length
+  | .updateInits g items => do
+    let gs ← readGraph g
+    if gs.view then unsupported "view"
+    else do
+      updChecks g [] items
+      forM' (fun kv => setInitCore g kv.1 kv.2) items
+  | .extendNodes g ns => do
+    let gs ← readGraph g
+    if gs.view then unsupported "view"
+    else do
+      let w ← getWorld
+      forM' (fun n => liftE (nodeAddable w g n)) ns
+      forM' (fun n => do
+        let x ← readNode n
+        setCell n (.node { x with graph := some g })) ns
+      let gs2 ← readGraph g
+      setCell g (.graph { gs2 with nodes := ns.foldl Sort.appendMove gs2.nodes })
+  | .removeSafe g ns => removeSafeM g ns
+  | .replaceNode g n name op inputs outNames => do
+    let gs ← readGraph g
+    if gs.view then unsupported "view"
+    else do
+      let x ← readNode n
+      let props ← alloc (.dict {})
+      let mstore ← alloc (.dict {})
+      let n' ← alloc (.node { name := some name, opType := op, inputs := inputs, props := props,
+                              mstore := mstore })
+      let outs ← mkOutputs n' 0 outNames.length
+      let nn ← readNode n'
+      setCell n' (.node { nn with outputs := outs })
+      addUses n' 0 inputs
+      setOutputNames outs outNames
+      replaceWith g n n' x.outputs outs
+  | .rauwMulti pairs outs => do
+    rauwChecks outs [] pairs
+    forM' (fun p => applyEdit2 (.replaceAllUses p.1 p.2 outs)) pairs
+  | .renameValues pairs => do
+    let ordered ← liftE (renameDedup [] pairs)
+    let groups ← groupInits [] ordered
+    forM' (fun (e : Nat × List (Nat × String)) => renameGroupChecks e.1 e.2 [] e.2) groups
+    forM' renameBacking ordered
+    forM' (fun (e : Nat × List (Nat × String)) => forM' (fun p => popByName e.1 p.1) e.2) groups
+    forM' (fun p => applyEdit0 (.setName p.1 (some p.2))) ordered
+    forM' (fun (e : Nat × List (Nat × String)) => forM' (fun p => addByName e.1 p.1) e.2) groups
+
+/-- an edit history over the third alphabet (see `runHistory`) -/
+def runHistory3 : List Edit3 → World → List (Except Err Unit) × World
+  | [], w => ([], w)
+  | e :: es, w =>
+    match run (applyEdit3 e) w with
+    | (r, w1) =>
+      match runHistory3 es w1 with
+      | (rs, w2) => (r :: rs, w2)
+
+/-- `functionalize` with a wrapped pass that uses the third alphabet -/
+def functionalize3 (fuel : Nat) (pass : Nat → World → List Edit3) (m : Nat) (w : World) :
+    Except Err Nat × World :=
+  match run (modelClone fuel m) w with
+  | (.ok m', w1) => (.ok m', (runHistory3 (pass m' w1) w1).2)
+  | (.error e, w1) => (.error e, w1)
 
 end IrVerif.Clone
